@@ -17,6 +17,10 @@ def main():
         if "_build_error" in res:
             print(res["_build_error"][-2000:])
             return 1
+    h2 = allh.get("k_abs_int")
+    if h2:
+        res, out, wall, cmd = K.run_group([h2], h2["features"], True, 300, 2, overall_timeout=3600)
+        print("setup: kani warm-up (stdlib-base) %.0fs status=%s" % (wall, res[h2["fqn"]]["status"]))
     from . import verus_run as V
     if hasattr(V, "warmup"):
         V.warmup()
